@@ -485,6 +485,9 @@ func (s *Storm) fire(r *rand.Rand, c trace.Call, fail, boom bool, holdUs int64, 
 	g := goid()
 	s.goidReq.Store(g, id)
 	out := s.t.Invoke(c, trace.NewLog())
+	for dk := range c.Data {
+		delete(c.Data, dk) // the caller recycles its map the moment the call has returned
+	}
 	s.goidReq.Delete(g)
 	d.retSeq = atomic.AddInt64(&s.seq, 1)
 	d.res, d.err, d.pan = out.Result, out.Err, out.Panic
